@@ -281,6 +281,7 @@ class SymEvaluator:
         self.assume = assume or {}    # canonical cond text -> bool (prune)
         self.stubs = {}               # function key -> callable(args, kw) -> value
         self._sink = []
+        self.cond_objs = {}           # condition text -> tested value (Cmp / Poly / ...)
         self.depth = 0
         self.notes = []
 
@@ -466,6 +467,7 @@ class SymEvaluator:
                 out.append((pp, d))
                 continue
             ctext = self._canon(test, pp, fn, v)
+            self.cond_objs[ctext] = v
             if ctext in self.assume:
                 out.append((pp, self.assume[ctext]))
                 continue
@@ -561,6 +563,7 @@ class SymEvaluator:
                     is_and = isinstance(x.op, ast.And)
                     if t is None:
                         ctext = self._canon(vals[0], p1, fn, v)
+                        self.cond_objs[ctext] = v
                         if ctext in self.assume:
                             t = self.assume[ctext]
                         else:
@@ -906,6 +909,7 @@ class SymEvaluator:
                 raise AnalysisError("symeval: call depth")
             sub = SymEvaluator(self.index, self.folder, self.assume)
             sub.stubs = self.stubs
+            sub.cond_objs = self.cond_objs
             sub.depth = self.depth + 1
             params = list(target.params)
             argmap = {}
@@ -1247,3 +1251,41 @@ def _as_load(t):
         if hasattr(n, "ctx"):
             n.ctx = ast.Load()
     return t
+
+
+# ---------------------------------------------------------------------------
+# numeric evaluation of forms (finite-domain folds)
+import math as _math
+
+
+def eval_poly(poly, env):
+    """Exact value of a form for concrete atom values (Fractions); floor[...]
+    atoms are evaluated through their inner form."""
+    total = Fraction(0)
+    for m, c in poly.terms.items():
+        v = Fraction(c)
+        for a, e in m:
+            v *= eval_atom(a, env) ** e
+        total += v
+    return total
+
+
+def eval_atom(a, env):
+    if a in env:
+        return Fraction(env[a])
+    if a.startswith("floor["):
+        inner = inner_of(a)
+        if inner is None:
+            raise AnalysisError(f"symeval: no inner form for {a[:60]}")
+        return Fraction(_math.floor(eval_poly(inner, env)))
+    raise AnalysisError(f"symeval: no value for atom {a[:80]}")
+
+
+def eval_cond(obj, env):
+    """truth value of a recorded condition object"""
+    if isinstance(obj, Poly):
+        return eval_poly(obj, env) != 0
+    if isinstance(obj, Cmp) and obj.op is not None and isinstance(obj.left, Poly) and isinstance(obj.right, Poly):
+        l, r = eval_poly(obj.left, env), eval_poly(obj.right, env)
+        return {"==": l == r, "!=": l != r, "<": l < r, "<=": l <= r, ">": l > r, ">=": l >= r}[obj.op]
+    raise AnalysisError(f"symeval: condition not numerically evaluable: {_show(obj)[:80]}")
